@@ -196,6 +196,8 @@ def run(ctx):
     K.check_element_slots_fresh(ctx, f, "R-SIB", "rrdp::", 3)
     K.check_attr_values_unescaped(ctx, f)
     check_text_impls_escape(ctx, f)
+    K.check_raw_text_writers(ctx, f)
+    K.check_base64_chunking(ctx, f)
     # the root element of the three RRDP documents is read under one and the same (header) limit
     roots_ = {}
     elems = {}
